@@ -37,6 +37,25 @@ def inputs():
     out["missing_siblings"] = ("".join(kept), ["--ff=AMBER"])
     out["fragment_opts"] = (frag, ["--ff=PARSE", "--keep-chain", "--whitespace"])
     out["failing"] = ("REMARK nothing here\nEND\n", ["--ff=AMBER"])
+    # a run with a user .names file that differs from the built-in one (no water mapping): a cache of parsed force fields
+    # keyed without the names file would leak it into later runs
+    import re
+    import tempfile
+    with open(os.path.join(root, "pdb2pqr", "dat", "AMBER.names")) as fh:
+        names = fh.read()
+    variant = re.sub(r"<residue>\s*<name>WAT</name>.*?</residue>", "", names, count=1, flags=re.S)
+    d = os.path.join(tempfile.gettempdir(), "c11_names")
+    os.makedirs(d, exist_ok=True)
+    npath = os.path.join(d, "nowat.names")
+    with open(npath, "w") as fh:
+        fh.write(variant)
+    out["1AJJ_usernames"] = (out["1AJJ"][0], ["--ff=AMBER", f"--usernames={npath}"])
+    # a run that fails LATE (after disulfide detection, inside debumping): 1BX8 with the backbone of ten residues removed
+    with open(os.path.join(root, "tests", "data", "1BX8.pdb")) as fh:
+        bx = fh.read().splitlines(True)
+    broken = [l for l in bx if not (l.startswith("ATOM") and 34 <= int(l[22:26]) <= 43 and l[12:16].strip() in ("N", "CA", "C", "O"))]
+    out["fails_late"] = ("".join(broken), ["--ff=AMBER"])
+    out["1AJJ_propka"] = (out["1AJJ"][0], ["--ff=PARSE", "--titration-state-method=propka", "--with-ph=7"])
     return out
 
 
@@ -75,11 +94,12 @@ def run(prop, tier, seed):
             bad.append({"case": c, "hashes_by_PYTHONHASHSEED": hs})
     # in-process history: A, failing, B, A
     hist = []
-    for c in ("1AJJ", "failing", "missing_siblings", "1AJJ", "fragment_opts", "missing_siblings"):
+    for c in ("1AJJ", "failing", "missing_siblings", "1AJJ", "fragment_opts", "missing_siblings",
+              "1AJJ_usernames", "1AJJ", "fails_late", "1AJJ", "1AJJ_propka", "1AJJ", "1AJJ_propka"):
         hist.append((c, run_one(c)))
     first = {}
     for c, h in hist:
-        if c == "failing":
+        if c in ("failing", "fails_late"):
             continue
         if c in first and first[c] != h:
             bad.append({"case": c, "history": hist, "why": "same input, different bytes later in the same process"})
